@@ -19,6 +19,9 @@ def render(root, sc, trace, rng):
     """Scenario -> scratch repository. Targets are spread over packages so that parsing and building interleave."""
     n = sc["n"]
     npk = rng.choice([1, 2, n])
+    fault = sc.get("fault") or ["cmdfail" if t in sc["fail"] else "ok" for t in range(1, n + 1)]
+    if "parseerr" in fault:
+        npk = n          # a BUILD-file error takes its whole package with it: one package per target
     pkg = {t: "p%d" % ((t - 1) % npk + 1) for t in range(1, n + 1)}
     if sc.get("pkgs"):
         pkg = {int(k): v for k, v in sc["pkgs"].items()}
@@ -28,8 +31,12 @@ def render(root, sc, trace, rng):
     builds = {}
     for t in range(1, n + 1):
         deps = sc["deps"][t - 1]
-        srcs = ['"//%s:t%d"' % (pkg[d], d) if d <= n else '"//%s:undefined%d"' % (pkg[t], d) for d in deps]
-        fail = t in sc["fail"]
+        srcs = ['"//%s:t%d"' % (pkg[d], d) for d in deps]
+        if fault[t - 1] == "undefdep":
+            srcs.append('"//%s:undefined%d"' % (pkg[t], t))       # the package exists, the target does not
+        elif fault[t - 1] == "nopkg":
+            srcs.append('"//nosuchpkg%d:x"' % t)                  # the package does not exist
+        fail = fault[t - 1] == "cmdfail"
         slp = rng.choice(["", "", "sleep 0.0%d; " % rng.randint(1, 5)])
         cmd = ("printf '%%s\\n' '{\"ev\":\"Start\",\"t\":\"%d\"}' >> %s; %s" % (t, trace, slp)
                + ("printf '%%s\\n' '{\"ev\":\"End\",\"t\":\"%d\",\"rc\":1}' >> %s; exit 1" % (t, trace) if fail else
@@ -37,6 +44,8 @@ def render(root, sc, trace, rng):
         builds.setdefault(pkg[t], []).append(
             'genrule(\n    name = "t%d",\n    srcs = [%s],\n    outs = ["t%d.out"],\n    cmd = %s,\n    visibility = ["PUBLIC"],\n)\n'
             % (t, ", ".join(srcs), t, json.dumps(cmd)))
+        if fault[t - 1] == "parseerr":
+            builds[pkg[t]].append('this is ( not a valid BUILD file\n')
     for p, rules in builds.items():
         os.makedirs(os.path.join(root, p), exist_ok=True)
         with open(os.path.join(root, p, "BUILD"), "w") as f:
@@ -69,8 +78,10 @@ def run_scenario(ctx, idx, sc, seed, hang_timeout=40):
         hung, rc = True, None
         outp = ex.stdout.decode("utf8", "replace") if isinstance(ex.stdout, bytes) else (ex.stdout or "")
     wall = time.time() - t0
+    fault = sc.get("fault") or ["ok"] * sc["n"]
     recs = [dict(ev="Reset", n=sc["n"], req=[str(t) for t in sc["req"]], expectOK=sc["expectOK"], scenario=idx,
-                 deps={str(t): [str(d) for d in sc["deps"][t - 1]] for t in range(1, sc["n"] + 1)})]
+                 deps={str(t): [str(d) for d in sc["deps"][t - 1]] + (["x%d" % t] if fault[t - 1] in ("undefdep", "nopkg", "parseerr") else [])
+                       for t in range(1, sc["n"] + 1)})]
     lab2t = {"//%s:t%d" % (pkg[t], t): t for t in pkg}
     if os.path.exists(trace):
         for line in open(trace):
@@ -222,6 +233,15 @@ def common(ctx, prop):
         ctx.extra["scenarios_enumerated_by_tlc"] = len(gen)
         cases = pick(ctx, gen, 160, 32) if ctx.quick else pick(ctx, gen, 3000, 600)
         cases += extra_scenarios(ctx, 24 if ctx.quick else 200)
+        if prop == "C05":
+            # parse-time faults (undefined dependency, missing package, BUILD-file error): property-level scenarios
+            pf = []
+            for cfg in (("GEN_SchedScenarios_2.cfg", "GEN_SchedScenarios_kg_2.cfg") if ctx.quick else ("GEN_SchedScenarios.cfg", "GEN_SchedScenarios_kg.cfg")):
+                pf += vlib.tlc(ctx, "SchedScenarios", cfg, timeout=900).cases
+            for c in pf:
+                c["fail"] = [t + 1 for t, f in enumerate(c["fault"]) if f == "cmdfail"]
+            ctx.extra["parse_fault_scenarios_enumerated_by_tlc"] = len(pf)
+            cases += pick(ctx, pf, 40, 8) if ctx.quick else pick(ctx, pf, 1500, 150)
     results = []
     with ThreadPoolExecutor(max_workers=32) as ex:
         futs = [ex.submit(run_scenario, ctx, i, sc, ctx.seed) for i, sc in enumerate(cases)]
